@@ -4,7 +4,7 @@
 (* message, judged with the C07 properties of MxNegotiate.                                                        *)
 EXTENDS Naturals, Integers, Sequences, FiniteSets, Json, IOUtils, TLC
 
-VARIABLES l, cfg, edited, seen
+VARIABLES l, cfg, edited, seen, sig      \* sig: the algorithm the server was last seen signing with in this episode (0: not seen)
 TraceLog == ndJsonDeserialize(IOEnv.TRACE)
 Line == TraceLog[l]
 
@@ -19,6 +19,10 @@ CV == SetOf(cfg["C"].vers)  SV == SetOf(cfg["S"].vers)
 Common == CV \cap SV
 CS == SetOf(cfg["C"].suites)  SS == SetOf(cfg["S"].suites)
 CG == SetOf(cfg["C"].groups)  SG == SetOf(cfg["S"].groups)
+\* signature algorithms offered by the client / enabled on the server; an empty list is "the defaults", which nothing is demanded of
+CSig == SetOf(cfg["C"].sigs)  SSig == SetOf(cfg["S"].sigs)
+SigOK(x) == (CSig # {} => x \in CSig) /\ (SSig # {} => x \in SSig)
+SigFeasible == CSig = {} \/ SSig = {} \/ CSig \cap SSig # {}
 \* AES-GCM and SHA-256 suites need TLS 1.2, the TLS 1.3 suites TLS 1.3
 Usable(s, v) == IF IsT13Suite(s) THEN v = 13 ELSE IF s \in {49199, 60} THEN v = 12 ELSE v \in {11, 12}
 SuitesFor(v) == {s \in CS \cap SS : Usable(s, v)}
@@ -34,11 +38,13 @@ Feasible == /\ EffCommon # {}
 
 TNew == /\ l <= Len(TraceLog) /\ Line.ev = "new" /\ "ncfg" \in DOMAIN Line
         /\ cfg' = Put(cfg, Line.role, Line.ncfg)
-        /\ UNCHANGED <<edited, seen>> /\ l' = l + 1
+        /\ UNCHANGED <<edited, seen, sig>> /\ l' = l + 1
 
 \* a hello (or any other handshake record before completion) was rewritten in flight
 TDeliver == /\ l <= Len(TraceLog) /\ Line.ev = "deliver"
             /\ edited' = (edited \/ (Line.origin \in {1, 7} /\ Line.hs # "NOSESSION" /\ Line.hc = 0))
+            \* TLS 1.2: the SignatureAndHashAlgorithm in the ServerKeyExchange the client is handed
+            /\ sig' = IF "skesig" \in DOMAIN Line THEN Line.skesig ELSE sig
             /\ UNCHANGED <<cfg, seen>> /\ l' = l + 1
 
 TState ==
@@ -46,7 +52,11 @@ TState ==
     /\ LET t == Line
            done == t.hc = 1 /\ t.err = 0
            v == VNum(t.ver)
-       IN /\ edited => ~done                                                   \* any in-transit change to a hello fails
+           used == IF t.role = "S" /\ t.sig13 # 0 THEN t.sig13 ELSE sig      \* TLS 1.3: what the server signed CertificateVerify with
+       IN /\ (done /\ used # 0) => SigOK(used)                                \* the signature algorithm in force is enabled by both
+          /\ (~edited /\ ~SigFeasible /\ v = 13) => ~done                    \* TLS 1.3 always needs a signature of the server here
+          /\ (~edited /\ ~SigFeasible /\ t.suite = 49199) => ~done            \* ECDHE_RSA does
+          /\ edited => ~done                                                   \* any in-transit change to a hello fails
           /\ done => /\ v \in Common /\ EffCommon # {} /\ v = Max(EffCommon)  \* enabled by both, and the highest both can run
                      /\ t.suite \in SuitesFor(v)
                      /\ v = 13 => t.grp \in CG \cap SG
@@ -58,15 +68,15 @@ TState ==
                  /\ seen.ver = t.ver /\ seen.suite = t.suite /\ seen.msfp = t.msfp /\ seen.ems = t.ems
                  /\ v = 13 => seen.grp = t.grp
           /\ seen' = IF done THEN [role |-> t.role, ver |-> t.ver, suite |-> t.suite, msfp |-> t.msfp, ems |-> t.ems, grp |-> t.grp] ELSE seen
-    /\ UNCHANGED <<cfg, edited>> /\ l' = l + 1
+    /\ UNCHANGED <<cfg, edited, sig>> /\ l' = l + 1
 
 NoSeen == [role |-> "-", ver |-> "-", suite |-> 0, msfp |-> "-", ems |-> 0, grp |-> 0]
-TReset == /\ l <= Len(TraceLog) /\ Line.ev = "Reset" /\ cfg' = [x \in {} |-> 0] /\ edited' = FALSE /\ seen' = NoSeen /\ l' = l + 1
+TReset == /\ l <= Len(TraceLog) /\ Line.ev = "Reset" /\ cfg' = [x \in {} |-> 0] /\ edited' = FALSE /\ seen' = NoSeen /\ sig' = 0 /\ l' = l + 1
 TOther == /\ l <= Len(TraceLog)
           /\ \/ Line.ev \notin {"new", "deliver", "state", "Reset"}
              \/ (Line.ev = "new" /\ "ncfg" \notin DOMAIN Line)
              \/ (Line.ev = "state" /\ (~HasCfg \/ Line.hs = "NOSESSION"))
-          /\ UNCHANGED <<cfg, edited, seen>> /\ l' = l + 1
+          /\ UNCHANGED <<cfg, edited, seen, sig>> /\ l' = l + 1
 
 TraceNormal == TNew \/ TDeliver \/ TState \/ TReset \/ TOther
 NextEpisode(i) ==
@@ -74,7 +84,7 @@ NextEpisode(i) ==
     IF rs = {} THEN Len(TraceLog) + 1 ELSE (CHOOSE j \in rs : \A k \in rs : j <= k)
 TReject == /\ l <= Len(TraceLog) /\ ~ENABLED TraceNormal
            /\ PrintT(<<"TRACE_REJECT_LINE", l, <<IF edited THEN "edited" ELSE "clean", "-", "-", FALSE, FALSE>> >>)
-           /\ l' = NextEpisode(l) /\ UNCHANGED <<cfg, edited, seen>>
-TDone == /\ l = Len(TraceLog) + 1 /\ PrintT(<<"TRACE_DONE", Len(TraceLog)>>) /\ l' = l + 1 /\ UNCHANGED <<cfg, edited, seen>>
-TraceSpec == l = 1 /\ cfg = [x \in {} |-> 0] /\ edited = FALSE /\ seen = NoSeen /\ [][TraceNormal \/ TReject \/ TDone]_<<l, cfg, edited, seen>>
+           /\ l' = NextEpisode(l) /\ UNCHANGED <<cfg, edited, seen, sig>>
+TDone == /\ l = Len(TraceLog) + 1 /\ PrintT(<<"TRACE_DONE", Len(TraceLog)>>) /\ l' = l + 1 /\ UNCHANGED <<cfg, edited, seen, sig>>
+TraceSpec == l = 1 /\ cfg = [x \in {} |-> 0] /\ edited = FALSE /\ seen = NoSeen /\ sig = 0 /\ [][TraceNormal \/ TReject \/ TDone]_<<l, cfg, edited, seen, sig>>
 =============================================================================
